@@ -491,3 +491,90 @@ def generic_cov(cov):
                    "faultAt, faultKind, changeAt); each replayed once; all are distinct; non-trivial = the scenario injects a fault, "
                    "a modification or a holder, or checks the fault-free path in a distinct mode")
     return cov
+
+
+# ---------------------------------------------------------------------------------------------
+# Wild.tla itself, and links that end without any injected fault
+
+
+def pipeline_model():
+    """Model-check specs/Wild.tla (phase order, scope nesting, error paths) - small, exhaustive."""
+    r = tlc.run_tlc("Wild", "mc/Wild.cfg", workers=2, timeout=300, coverage=True)
+    if not r.ok:
+        raise ToolError(f"Wild.tla model check failed: {r.violated} {r.error_text}\n{r.trace_text[:1500]}")
+    missing = tlc.zero_coverage_actions(r, ["Reach", "GcBegin", "GcEnd", "SmBegin", "SmEnd", "ResBegin", "ResEnd",
+                                            "Fault", "LinkError", "ReachAfterError"])
+    if missing:
+        raise ToolError(f"Wild.tla: actions never taken: {missing}")
+    return {"cfg": "mc/Wild.cfg", **r.summary()}
+
+
+_NAT_OBJ = """
+ .section .rodata.str1.1,"aMS",@progbits,1
+.Ls{i}: .asciz "hello{i}"
+ .asciz "common"
+ .section .rodata.cst4,"aM",@progbits,4
+ .long {i}
+ .text
+ .globl f{i}
+f{i}: lea .Ls{i}(%rip), %rax
+ call f{j}
+ ret
+"""
+
+
+def natural_links(ctx, prop, cov):
+    """Links that succeed or fail ON THEIR OWN (no injected fault): undefined / duplicate symbol, missing input,
+    archive members, several merged-string sections, fork and no-fork, 1..8 threads with seeded yields.  The hook
+    trace of each, with the exit status wild's caller saw appended, must be a behaviour of Wild.tla: phases in
+    order, the resolution scope between `symbols` and `resolved`, the traversal and string-merge scopes inside
+    layout, every protocol event inside its scope, after an error only `verified`/`finished` - and exit status 0
+    only for a link that reached `finished` with no error (SuccessMeansFinished)."""
+    from .common import run_wild, save_replay, scratch
+    n_ok = 0
+    kinds = []
+    with scratch(prop.lower() + "nat") as d:
+        objs = []
+        for i in range(6):
+            objs.append(asm.write_asm(d, f"n{i}", _NAT_OBJ.format(i=i, j=(i + 1) % 6)))
+        m = asm.write_asm(d, "nm", ".globl _start\n_start: call f0\n call maybe_undefined\n ret\n")
+        u = asm.write_asm(d, "nu", ".globl maybe_undefined\nmaybe_undefined: ret\n")
+        dup = asm.write_asm(d, "ndup", ".globl f0\nf0: ret\n")
+        sh(["ar", "rcs", d / "libn.a", *objs[3:], u], check=True)
+        full = [m, *objs[:3], d / "libn.a"]
+        cases = [
+            ("ok-t1", full, ["--threads=1", "--no-fork"], {}, True),
+            ("ok-t8-yield", full, ["--threads=8", "--no-fork"], {"WILD_VERIF_YIELD_SEED": ctx.seed}, True),
+            ("ok-t4-group1", full, ["--threads=4", "--no-fork"], {"WILD_VERIF_YIELD_SEED": ctx.seed + 1, "WILD_FILES_PER_GROUP": 1}, True),
+            ("ok-fork", full, ["--threads=4"], {}, True),
+            ("ok-shared", full, ["-shared", "--threads=2", "--no-fork"], {}, True),
+            ("undefined-symbol", [m, *objs[:3]], ["--threads=4", "--no-fork"], {}, False),
+            ("undefined-symbol-fork", [m, *objs[:3]], ["--threads=2"], {}, False),
+            ("duplicate-symbol", [*full, dup], ["--threads=4", "--no-fork"], {}, False),
+            ("missing-input", [*full, d / "does-not-exist.o"], ["--threads=2", "--no-fork"], {}, False),
+        ]
+        for name, inputs, args, env, expect_ok in cases:
+            tr = d / f"{name}.ndjson"
+            e = {"WILD_VERIF_TRACE": str(tr)}
+            e.update({k: str(v) for k, v in env.items()})
+            r = run_wild(["-o", d / f"{name}.out", *inputs, *args], env=e, timeout=60)
+            kinds.append({"case": name, "rc": r.rc, "events": sum(1 for _ in open(tr)) if tr.exists() else 0})
+            if r.timed_out:
+                raise ToolError(f"natural link {name} timed out")
+            if (r.rc == 0) != expect_ok:
+                ctx.verdict.report(f"natural-link-status:{name}", f"link `{name}` exited {r.rc}, expected {'success' if expect_ok else 'failure'}: {r.err[-300:]}",
+                                   lambda name=name: save_replay(prop, f"natural-{name}", d))
+                continue
+            ok, info = validate_pipeline_trace(tr, f"{prop}.nat.{name}", rc=r.rc)
+            if ok is None and not expect_ok:
+                continue            # failed before the first hook point (e.g. while opening inputs): nothing to validate
+            if ok is not True:
+                ctx.verdict.report(f"pipeline-trace:{name}",
+                                   f"the phase / scope / protocol events and exit status {r.rc} of link `{name}` are not a behaviour of Wild.tla: {info}",
+                                   lambda name=name: save_replay(prop, f"natural-{name}", d))
+            else:
+                n_ok += 1
+    cov["natural_link_traces_validated"] = n_ok
+    cov["natural_links"] = kinds
+    if n_ok < 6:
+        raise ToolError(f"only {n_ok} natural link traces were validated")
